@@ -26,6 +26,7 @@ type c16mCase struct {
 }
 
 func c16mRun(t *testing.T, c c16mCase) (kind, what string) {
+	defer ev.Watch(fmt.Sprintf("whole rump command %+v", c), 150*time.Second, c)()
 	c16Case{ScanCount: c.ScanCount, Threshold: c.Threshold, KeyExists: "none", TargetDB: -1}.apply("")
 	var addrs []string
 	for i := 0; i < c.Sources; i++ {
